@@ -38,6 +38,26 @@ class Poison:
         raise StaleTrackerUsed("head/tail tracker of a previous parse was written (.%s)" % k)
 
 
+class SpyLexer:
+    """stands for the lexer in use: records every attribute read and written by the rule functions.
+    C04-H: the only state a rule may keep on the lexer is the head/tail tracker, which is never read for the
+    first match of an input (so nothing survives from one input to the next)."""
+
+    def __init__(self):
+        object.__setattr__(self, "_reads", [])
+        object.__setattr__(self, "_writes", [])
+
+    def __getattribute__(self, k):
+        if k.startswith("__") or k in ("_reads", "_writes"):
+            return object.__getattribute__(self, k)
+        object.__getattribute__(self, "_reads").append(k)
+        return object.__getattribute__(self, k)
+
+    def __setattr__(self, k, v):
+        object.__getattribute__(self, "_writes").append(k)
+        object.__setattr__(self, k, v)
+
+
 def rules():
     """(rule name, function, token type, pattern) for every function rule of the live lexer"""
     out = []
@@ -85,9 +105,8 @@ def matched_text(ttype, rx, c):
 
 def run_rule(cx, rule, state, want):
     name, fn, ttype, rx = rule
-    ext.NUMERAL_ORIGINAL_SPELLING[0] = True
     m = matched_text(ttype, rx, cx)
-    lexer = P.lexer.clone()
+    lexer = SpyLexer()
     tok = lex.LexToken()
     tok.type = ttype
     tok.value = m
@@ -100,7 +119,7 @@ def run_rule(cx, rule, state, want):
     if state == "first":
         tok.lexpos = 0
         consumed = ""
-        setattr(lexer, HT.HeadTailLexer.LEXER_ATTR, Poison())
+        object.__setattr__(lexer, HT.HeadTailLexer.LEXER_ATTR, Poison())
     else:
         tracker = HT.HeadTailLexer()
         if state == "after-separator":
@@ -121,10 +140,10 @@ def run_rule(cx, rule, state, want):
             prefix = SymStr(name="prefix")
             tracker.last_elt = last
             consumed = prefix + lv.head + lmatched + lv.tail
-        setattr(lexer, HT.HeadTailLexer.LEXER_ATTR, tracker)
+        object.__setattr__(lexer, HT.HeadTailLexer.LEXER_ATTR, tracker)
         tok.lexpos = rewriteless_len(consumed)
         cx.assume(I(tok.lexpos) >= 1)
-    sample = {"TERM": "w", "PHRASE": '"p q"', "REGEX": "/r/", "APPROX": "~2", "BOOST": "^2", "SEPARATOR": "  "}.get(
+    sample = {"TERM": "w", "PHRASE": '"p q"', "REGEX": "/r/", "APPROX": "~2.50", "BOOST": "^02.0", "SEPARATOR": "  "}.get(
         ttype, m if isinstance(m, str) else "w")
     ctxq = {"APPROX": "w%s", "BOOST": "w%s", "COLUMN": "f%sw", "RPAREN": "(w%s", "RBRACKET": "[a TO b%s",
             "LPAREN": "%sw)", "LBRACKET": "%sa TO b]", "AND_OP": "w %s w", "OR_OP": "w %s w", "PLUS": "%sw",
@@ -148,6 +167,14 @@ def run_rule(cx, rule, state, want):
         outcome = e
     key = "%s/%s" % (name, state)
     obls = []
+    if "C04" in want:
+        attr = HT.HeadTailLexer.LEXER_ATTR
+        reads = object.__getattribute__(lexer, "_reads")
+        writes = object.__getattribute__(lexer, "_writes")
+        allowed_reads = set() if state == "first" else {attr}
+        obls.append(("C04-H/%s/lexer-state: only the tracker is kept on the lexer, never read for a first match" % key,
+                     (set(reads) <= allowed_reads and set(writes) <= {attr},
+                      {"reads": sorted(set(reads)), "writes": sorted(set(writes))})))
     if outcome is not None:
         if "C04" in want:
             obls.append(("C04-X/%s/raises-only-ParseError" % key,
@@ -155,7 +182,7 @@ def run_rule(cx, rule, state, want):
         else:
             obls.append(("C01-L/%s/no-exception" % key, (False, {"exception": core.exc_desc(outcome)})))
         return obls
-    tr = getattr(lexer, HT.HeadTailLexer.LEXER_ATTR)
+    tr = object.__getattribute__(lexer, HT.HeadTailLexer.LEXER_ATTR)
     new_consumed = consumed + m
     if isinstance(tr, Poison):
         obls.append(("C01-L/%s/tracker-reset" % key, False))
@@ -267,7 +294,7 @@ def t_error_case(want):
         tok.value = SymStr(name="rest")
         tok.lexpos = SymInt(name="lexpos")
         tok.lineno = 1
-        tok.lexer = P.lexer.clone()
+        tok.lexer = SpyLexer()
         try:
             P.t_error(tok)
         except X.ParseError:
